@@ -58,6 +58,16 @@ class RefB:
         elif m == 'without_subpath': self.sub = []
         elif m == 'without_qualifiers': self.q = []
         elif m == 'with_package_type': self.ty = args[0]
+        elif m == 'set_namespace': self.ns = args[0]
+        elif m == 'set_name': self.name = args[0]
+        elif m == 'set_version': self.ver = args[0]
+        elif m == 'set_subpath': self.sub = args[0]
+        elif m == 'repository_url':
+            self.q = [(a, b) for a, b in self.q if bytes(a) != b'repository_url' or not all(isinstance(x, int) for x in a)] + [(list(b'repository_url'), args[0])]
+        elif m == 'no_repository_url':
+            self.q = [(a, b) for a, b in self.q if not (all(isinstance(x, int) for x in a) and bytes(a) == b'repository_url')]
+        elif m == 'no_checksum':
+            self.q = [(a, b) for a, b in self.q if not (all(isinstance(x, int) for x in a) and bytes(a) == b'checksum')]
         elif m in ('with_qualifier', 'without_qualifier'):
             k = args[0]
             valid = len(k) > 0 and all(in_set(L.I, x, R_.KEY_CH) for x in k)
@@ -283,6 +293,18 @@ def queries(tier):
         addseq(T, ty, 'n', [('with_qualifier', 'checksum', 'sha1:00ff'), ('with_qualifier', 'CHECKSUM', H(1))])
         addseq(T, ty, 'n', [('with_qualifier', 'CheckSum', 'B:00,a:'), ('with_qualifier', 'k', H(1))])
         addseq(T, ty, 'n', [('with_qualifier', 'checksum', H(2)), ('without_qualifier', 'Checksum')])
+    # direct edits of the public parts and the typed-qualifier setters
+    for T, ty in (('String', 't'), ('Purl', 'npm')):
+        for meth in ('set_namespace', 'set_name', 'set_version', 'set_subpath'):
+            for n in lens(3 if th else 2):
+                addseq(T, ty, 'n', [('with_namespace', 'g'), (meth, H(n))])
+        addseq(T, ty, 'n', [('with_version', H(1, 'a')), ('set_version', H(1, 'b'))])
+        addseq(T, ty, 'n', [('set_subpath', H(2, 'a')), ('with_subpath', H(1, 'b'))])
+        for n in lens(3 if th else 2):
+            addseq(T, ty, 'n', [('repository_url', H(n))])
+        addseq(T, ty, 'n', [('with_qualifier', 'Repository_URL', H(1, 'a')), ('repository_url', H(1, 'b'))])
+        addseq(T, ty, 'n', [('repository_url', H(2, 'a')), ('no_repository_url',)])
+        addseq(T, ty, 'n', [('with_qualifier', 'checksum', H(2, 'a')), ('no_checksum',)])
     for n in lens(3 if th else 2):
         addseq('String', H(n, 't'), 'n', [])
         addseq('String', 't', 'n', [('with_package_type', H(n, 't'))])
@@ -333,6 +355,14 @@ def confirm(v, resp):
             f[{'without_namespace': 'ns', 'without_version': 'ver', 'without_subpath': 'sub'}[m]] = b''
         elif m == 'with_package_type':
             f['type'] = a[0]
+        elif m in ('set_namespace', 'set_name', 'set_version', 'set_subpath'):
+            f[{'set_namespace': 'ns', 'set_name': 'name', 'set_version': 'ver', 'set_subpath': 'sub'}[m]] = a[0]
+        elif m == 'repository_url':
+            q[b'repository_url'] = a[0]
+        elif m == 'no_repository_url':
+            q.pop(b'repository_url', None)
+        elif m == 'no_checksum':
+            q.pop(b'checksum', None)
         elif m == 'without_qualifiers':
             q = {}
         elif m in ('with_qualifier', 'without_qualifier'):
